@@ -1,2 +1,3 @@
 import NeoFS.Base.Parse
 import NeoFS.Model.EC
+import NeoFS.Gen.Arith
